@@ -387,8 +387,17 @@ struct RCfg<'a> {
     refs: &'a [RefMsg],
     script: &'a [RStep],
     fault: Option<(usize, RKind)>,
-    /// scratch needed per message (measured); None while measuring
+    /// scratch consumed per message in the measuring run; None while measuring
     need: Option<&'a [usize]>,
+    /// per message: Some(n) when the scratch a decode needs is known independently of the
+    /// implementation — n = total length of its borrowed str/bytes for a zero-copy target without
+    /// floats or chars, n = 0 for a message without any str/bytes/float/char; None otherwise
+    /// (an owned string, a float or a char may or may not pass through the scratch)
+    strict: &'a [Option<usize>],
+    /// scratch that was available to message i in the measuring run (where it succeeded)
+    avail_big: Option<&'a [usize]>,
+    /// per message: the smallest available scratch at which a decode has succeeded so far
+    min_ok: &'a RefCell<Vec<usize>>,
 }
 
 struct ReadReport {
@@ -398,6 +407,8 @@ struct ReadReport {
     /// per decoded message: how many bytes at the END of the scratch region it consumed still hold
     /// what the buffer held before the call (never written by the decode)
     trailing_unwritten: Vec<usize>,
+    /// scratch that was available to each decoded message
+    avail: Vec<usize>,
 }
 
 /// Reads the messages one after the other from one simulated reader with the given scratch.
@@ -451,7 +462,7 @@ fn read_chain_inner(
     let mut cur_addr = scratch.as_mut_ptr() as usize;
     let mut cur_len = scratch.len();
     let scratch_end = cur_addr + cur_len;
-    let mut report = ReadReport { used: Vec::new(), decoded: 0, trailing_unwritten: Vec::new() };
+    let mut report = ReadReport { used: Vec::new(), decoded: 0, trailing_unwritten: Vec::new(), avail: Vec::new() };
     // what the scratch held before anything was decoded into it
     let before_fill: Vec<u8> = scratch.to_vec();
     let scratch_base = cur_addr;
@@ -553,19 +564,22 @@ fn read_chain_inner(
                         ),
                     });
                 }
-                // the returned scratch is the unused tail of what was given
+                // the returned scratch is a part of what was given (today: its tail)
                 let used = cur_len.wrapping_sub(ok.rest_len);
-                if ok.rest_len > cur_len || ok.rest_addr + ok.rest_len != scratch_end || ok.rest_addr != cur_addr + used {
+                let cur_end = cur_addr + cur_len;
+                if ok.rest_len > cur_len || (ok.rest_len > 0 && (ok.rest_addr < cur_addr || ok.rest_addr + ok.rest_len > cur_end)) {
                     return Err(Fail {
                         clause: "scratch-remainder",
                         detail: format!(
-                            "message {i}: given {cur_len} scratch bytes at +{}, the returned remainder is {} bytes at +{} (must be the unused tail)",
+                            "message {i}: given {cur_len} scratch bytes at +{}, the returned remainder is {} bytes at +{}: not a part of the scratch that was given",
                             cur_addr - (scratch_end - scratch.len()),
                             ok.rest_len,
                             ok.rest_addr.wrapping_sub(scratch_end - scratch.len())
                         ),
                     });
                 }
+                let rest_lo = if ok.rest_len == 0 { cur_end } else { ok.rest_addr };
+                let rest_hi = rest_lo + ok.rest_len;
                 // borrowed data: inside the part of the scratch that was used, pairwise disjoint,
                 // outside the returned remainder, and still holding its bytes
                 let mut spans: Vec<(usize, usize)> = Vec::new();
@@ -575,16 +589,19 @@ fn read_chain_inner(
                         continue;
                     }
                     borrowed_total += b.len;
-                    if b.addr < cur_addr || b.addr + b.len > ok.rest_addr {
+                    let inside = b.addr >= cur_addr && b.addr + b.len <= cur_end;
+                    let overlaps_rest = b.addr < rest_hi && b.addr + b.len > rest_lo;
+                    if !inside || overlaps_rest {
                         return Err(Fail {
                             clause: "borrowed-in-scratch",
                             detail: format!(
-                                "message {i}: a borrowed field of {} bytes lies at scratch offset {}..{}, outside the used part {}..{} of the scratch",
+                                "message {i}: a borrowed field of {} bytes lies at scratch offset {}..{}; the scratch given is 0..{}, the returned remainder {}..{}",
                                 b.len,
                                 b.addr as isize - cur_addr as isize,
                                 b.addr as isize - cur_addr as isize + b.len as isize,
-                                0,
-                                used
+                                cur_len,
+                                rest_lo - cur_addr,
+                                rest_hi - cur_addr
                             ),
                         });
                     }
@@ -626,6 +643,28 @@ fn read_chain_inner(
                 if spans.len() >= 3 {
                     out.probe(p::THREE_BORROWS);
                 }
+                if let Some(n) = c.strict[i] {
+                    if used != n {
+                        return Err(Fail {
+                            clause: "scratch-remainder",
+                            detail: format!(
+                                "message {i} {} and consumed {used} scratch bytes: the unused scratch was not returned",
+                                if n == 0 {
+                                    "holds no string, byte array, float or char".to_string()
+                                } else {
+                                    format!("borrows {n} bytes (strings and byte arrays, nothing else that could use the scratch)")
+                                }
+                            ),
+                        });
+                    }
+                }
+                {
+                    let mut mo = c.min_ok.borrow_mut();
+                    if mo.len() <= i {
+                        mo.resize(i + 1, usize::MAX);
+                    }
+                    mo[i] = mo[i].min(cur_len);
+                }
                 if let Some(need) = c.need {
                     if used != need[i] {
                         return Err(Fail {
@@ -647,15 +686,24 @@ fn read_chain_inner(
                     out.probe(p::INTERRUPTED_TRANSPARENT);
                 }
                 {
+                    // bytes of the consumed region next to the returned remainder that still hold
+                    // the pre-fill (only when the consumed region is one piece: a prefix or a suffix)
                     let off = cur_addr - scratch_base;
-                    let now = unsafe { std::slice::from_raw_parts(cur_addr as *const u8, used) };
+                    let all = unsafe { std::slice::from_raw_parts(cur_addr as *const u8, cur_len) };
                     let mut k = 0;
-                    while k < used && now[used - 1 - k] == before_fill[off + used - 1 - k] {
-                        k += 1;
+                    if rest_hi == cur_end {
+                        while k < used && all[used - 1 - k] == before_fill[off + used - 1 - k] {
+                            k += 1;
+                        }
+                    } else if rest_lo == cur_addr {
+                        while k < used && all[ok.rest_len + k] == before_fill[off + ok.rest_len + k] {
+                            k += 1;
+                        }
                     }
                     report.trailing_unwritten.push(k);
                 }
                 report.used.push(used);
+                report.avail.push(cur_len);
                 report.decoded += 1;
                 reader = Some(ok.reader);
                 cur_addr = ok.rest_addr;
@@ -666,14 +714,23 @@ fn read_chain_inner(
                     out.probe(p::SLICE_PATH_ERR_READER_ERR);
                     return Ok(report);
                 }
-                if let Some(need) = c.need {
-                    if cur_len < need[i] {
-                        out.probe(p::SCRATCH_TOO_SMALL_ERR);
-                        return Ok(report);
-                    }
-                }
                 if interrupted {
                     return Ok(report); // Interrupted made fatal: allowed, integrity checked above
+                }
+                // Too little scratch is a legitimate reason to fail. How much a message needs is
+                // known exactly for `strict` messages; otherwise it is only known that the
+                // measuring run's amount sufficed and that sufficiency is monotone.
+                let too_small = match c.strict[i] {
+                    Some(n) => cur_len < n,
+                    None => {
+                        let below_big = c.avail_big.map_or(false, |a| i < a.len() && cur_len < a[i]);
+                        let below_ok = c.min_ok.borrow().get(i).map_or(true, |m| cur_len < *m);
+                        below_big && below_ok
+                    }
+                };
+                if too_small {
+                    out.probe(p::SCRATCH_TOO_SMALL_ERR);
+                    return Ok(report);
                 }
                 return Err(Fail {
                     clause: "same-value-as-slice-path",
@@ -681,9 +738,10 @@ fn read_chain_inner(
                         "message {i}: slice decoding of stream bytes {}..{} succeeds, the reader path failed with {e:?} although the reader never failed and {cur_len} scratch bytes were available{}",
                         rf.start,
                         rf.end,
-                        match c.need {
-                            Some(n) => format!(" ({} needed)", n[i]),
-                            None => String::new(),
+                        match (c.strict[i], c.min_ok.borrow().get(i)) {
+                            (Some(n), _) => format!(" ({n} needed: its borrowed strings and byte arrays)"),
+                            (None, Some(m)) if *m != usize::MAX => format!(" (the same message decoded with {m} bytes available)"),
+                            _ => String::new(),
                         }
                     ),
                 });
@@ -776,6 +834,33 @@ fn exec_c11(t: &C11Trace, out: &mut Outcome<C11Trace>) {
             return;
         }
     };
+    // what a decode needs from the scratch, where that is known without looking at the
+    // implementation (from the value the slice path decodes)
+    fn borrowed_len(v: &Val) -> usize {
+        match v {
+            Val::Str(s) => s.len(),
+            Val::Bytes(b) => b.len(),
+            Val::Opt(Some(x)) => borrowed_len(x),
+            Val::Seq(xs) | Val::Var(_, xs) => xs.iter().map(borrowed_len).sum(),
+            Val::Map(m) => m.iter().map(|(k, v)| borrowed_len(k) + borrowed_len(v)).sum(),
+            _ => 0,
+        }
+    }
+    let strict: Vec<Option<usize>> = refs
+        .iter()
+        .enumerate()
+        .map(|(i, r)| {
+            let k = t.msgs[i].shape.kinds();
+            let users = shape::K_STR | shape::K_DISPLAY | shape::K_BYTES | shape::K_FLOAT | shape::K_CHAR;
+            match &r.val {
+                None => None,
+                Some(_) if k & users == 0 => Some(0),
+                Some(v) if t.borrowed && k & (shape::K_FLOAT | shape::K_CHAR) == 0 => Some(borrowed_len(v)),
+                Some(_) => None,
+            }
+        })
+        .collect();
+    let min_ok: RefCell<Vec<usize>> = RefCell::new(Vec::new());
     let stream = Rc::new(stream);
     #[allow(non_snake_case)]
     let BIG: usize = BIG_MIN.max(stream.len() + 64).min(arena::RW - 16);
@@ -792,6 +877,9 @@ fn exec_c11(t: &C11Trace, out: &mut Outcome<C11Trace>) {
         script: &calm,
         fault: None,
         need: None,
+        strict: &strict,
+        avail_big: None,
+        min_ok: &min_ok,
     };
     let base = RCfg {
         adapter: t.adapter,
@@ -802,6 +890,9 @@ fn exec_c11(t: &C11Trace, out: &mut Outcome<C11Trace>) {
         script: &t.rscript,
         fault: None,
         need: None,
+        strict: &strict,
+        avail_big: None,
+        min_ok: &min_ok,
     };
     crate::supervisor::set_ctx([3, 0, 0, BIG as u64]);
     let (measured, _) = arena::with_arena(|a| a.with_buf(BIG, t.place, |buf| read_chain(&measure, buf, out), |_| None));
@@ -865,6 +956,7 @@ fn exec_c11(t: &C11Trace, out: &mut Outcome<C11Trace>) {
     if s < need_total {
         out.fault(f::SCRATCH_SHORT);
     }
+    let base = RCfg { avail_big: Some(&measured.avail), ..base };
     let own = RCfg { fault: t.rfault, need: Some(&need), ..base };
     crate::supervisor::set_ctx([3, 1, 0, s as u64]);
     let (r, stray) = arena::with_arena(|a| a.with_buf(s, t.place, |buf| read_chain(&own, buf, out), |_| None));
